@@ -1,3 +1,4 @@
+"""dev-only unit (tools/vmut.sh): the Verus loop file of one of C03/C04/C19, selected by the LOOPDEV environment variable. Not registered."""
 import os
 from lib.unit import *
 from units import loop_common as L
